@@ -50,7 +50,8 @@ def verify(src_dir, sid=None):
         res["builds"] = rc == 0
         rc, out = sh(["cargo", "test", "--offline", "--no-fail-fast"], cwd=wt)
         c = _test_counts(out)
-        failed = re.findall(r"^test (\S+) \.\.\. FAILED", out, re.M)
+        failed = sorted(set(re.findall(r"^test (\S+) \.\.\. FAILED", out, re.M)) |
+                        set(re.findall(r"^---- (\S+) stdout ----", out, re.M)))
         res["with_change"] = {"rc": rc, "counts": c, "failed": failed}
         only_demo_fails = bool(failed) and all(demo_name.split("::")[-1] in f or "seeded" in f for f in failed)
         baseline_ok = c is not None and (c[0] + len([f for f in failed if "seeded" not in f and demo_name not in f])) >= 76 and \
